@@ -70,6 +70,8 @@ type Record struct {
 	Index        uint64         `json:"index"`
 	RunSeed      uint64         `json:"run_seed"`
 	Kind         string         `json:"kind"`
+	Shape        string         `json:"shape,omitempty"`     // entry | several_entries | many_tasks | warm | cool | pre_warm | victim (evidence only)
+	Discarded    int            `json:"discarded,omitempty"` // discarded repetitions planned in this run (long-lived callers)
 	Mode         string         `json:"mode"`
 	NTasks       int            `json:"ntasks"`
 	NOps         int            `json:"nops"`
@@ -942,6 +944,7 @@ func ExecRun(p *Plan) *Record {
 		rec.Fams = append(rec.Fams, f)
 	}
 	sort.Strings(rec.Fams)
+	rec.Shape, rec.Discarded = shapeOf(p)
 
 	x := &execution{p: p, rec: rec, slow: map[[2]int]bool{}, noisy: map[[2]int]bool{}}
 	if FreeMode || p.Free {
@@ -986,6 +989,40 @@ func ExecRun(p *Plan) *Record {
 	}
 	x.compare()
 	return rec
+}
+
+// shapeOf names the run shape for the evidence (it decides nothing).
+func shapeOf(p *Plan) (string, int) {
+	if p.Kind != "focused" || p.Mode != "private" {
+		return p.Kind + "/" + p.Mode, 0
+	}
+	names := map[string]bool{}
+	warm, cool, n, plain0 := false, false, 0, true
+	for t, ops := range p.Tasks {
+		for _, o := range ops {
+			names[o.Name] = true
+			warm, cool = warm || o.Warm > 0, cool || o.Cool > 0
+			n += o.Warm + o.Cool
+			if t == 0 && (o.Warm > 0 || o.Cool > 0) {
+				plain0 = false
+			}
+		}
+	}
+	switch {
+	case p.PreWarm != nil:
+		return "pre_warm", p.PreWarm.Warm
+	case (warm || cool) && plain0 && p.Sched.Stall == 0:
+		return "victim", n
+	case warm:
+		return "warm", n
+	case cool:
+		return "cool", n
+	case len(names) > 1:
+		return "several_entries", 0
+	case len(p.Tasks) > 8:
+		return "many_tasks", 0
+	}
+	return "entry", 0
 }
 
 // FreeMode: set by the worker when the driver found blocking / spawning constructs
